@@ -294,9 +294,8 @@ func c10Classify(c *Ctx, s *ctrSite, ds []*ctrSite) (idiom, why string, matched 
 					for _, call := range callsIn(f, true, func(cc *ssa.CallCommon) bool { return cc.StaticCallee() == d.fn }) {
 						n++
 						// exactly-one-of idiom of the http2 pool: the helper runs either when a go-away client is replaced
-						// (goaway == 1) or on the close event of a client that is not in go-away
 						onClose, whyNot := coversCloseEvents(call.Instr)
-						if !onClose && whyNot != "" && closeWhy == "" {
+						if !onClose && whyNot != "" && closeWhy == "" && !guardedByFieldLoadEq(call.Instr, "goaway", 1, true) {
 							closeWhy = whyNot + " (call of " + d.fn.Name() + " in " + f.Name() + ")"
 						}
 						closeSite := onClose && !guardedByFieldLoadEq(call.Instr, "goaway", 1, true)
@@ -304,8 +303,15 @@ func c10Classify(c *Ctx, s *ctrSite, ds []*ctrSite) (idiom, why string, matched 
 						if !closeSite && !replaceSite {
 							all = false
 						}
-						if closeSite && anyReplace && !guardedByFieldLoadEq(call.Instr, "goaway", 1, false) {
+						// (goaway == 1), or on the close event of a client that still occupies the slot the helper clears (a replaced
+						// client was removed by the replace site already).
+						// A go-away flag does not say whether the replacement happened: `goaway != 1` as the close-site guard leaves
+						// the gauge at 1 for a go-away client that closes before the next request reaches the pool.
+						if closeSite && anyReplace && !guardedBySlotIdentity(call.Instr, d.fn) {
 							all = false
+							if closeWhy == "" {
+								closeWhy = "the close event releases the client without testing that it still occupies the pool's slot, or skips the release on the go-away flag, which does not tell whether the client was replaced (call of " + d.fn.Name() + " in " + f.Name() + ")"
+							}
 						}
 					}
 				}
@@ -547,6 +553,33 @@ func guardedByFieldLoadEq(in ssa.Instruction, field string, k int64, want bool) 
 		eq := (bo.Op == token.EQL) == g.True
 		if eq == want {
 			return true
+		}
+	}
+	return false
+}
+
+// guardedBySlotIdentity: the call of helper is under `recv.F == <parameter>` where the helper stores nil to F: the helper
+// runs for the parameter only while it occupies the slot, and empties the slot, so it runs at most once per occupant.
+func guardedBySlotIdentity(in ssa.Instruction, helper *ssa.Function) bool {
+	cleared := map[string]bool{}
+	forEachInstr(helper, false, func(_ *ssa.Function, i ssa.Instruction) {
+		if st, ok := i.(*ssa.Store); ok && isNilConst(st.Val) {
+			if _, f, _, ok := fieldAddrInfo(st.Addr); ok {
+				cleared[f] = true
+			}
+		}
+	})
+	for _, g := range guardsAt(in.Block()) {
+		bo, ok := g.Cond.(*ssa.BinOp)
+		if !ok || !((bo.Op == token.EQL && g.True) || (bo.Op == token.NEQ && !g.True)) {
+			continue
+		}
+		for _, pr := range [][2]ssa.Value{{bo.X, bo.Y}, {bo.Y, bo.X}} {
+			_, f, _, okF := loadedField(pr[0])
+			_, isParam := pr[1].(*ssa.Parameter)
+			if okF && isParam && cleared[f] {
+				return true
+			}
 		}
 	}
 	return false
